@@ -1359,7 +1359,10 @@ def c18(res, tier, seed, deep):
         game1s = [[(f"position fen {mated}", 0), ("go depth 1", 0), ("stop", 0.3)],
                   [(f"position fen {mated}", 0), ("go depth 1", 0)],
                   [(f"position fen {mated}", 0), ("go", 0), ("position startpos", 0.2)],
-                  [(f"position fen {pred}", 0), ("go depth 2", 0), ("stop", 0.5), (f"position fen {mated}", 0), ("go depth 1", 0), ("stop", 0.2)]]
+                  [(f"position fen {pred}", 0), ("go depth 2", 0), ("stop", 0.5), (f"position fen {mated}", 0), ("go depth 1", 0), ("stop", 0.2)],
+                  # game 1 ALSO searches the probe position itself after its mated successor was recorded: its table then holds a
+                  # root entry for the probe position that prefers a non-mating move (the mating move was a repetition there)
+                  [(f"position fen {mated}", 0), ("go depth 1", 0), ("stop", 0.3), (f"position fen {pred}", 0), ("go depth 3", 0), ("stop", 1.0)]]
         middles = [[], [("isready", 0)], [("position startpos", 0), ("go", 0)], [("position startpos", 0), ("go depth 1", 0), ("isready", 0)],
                    [("stop", 0)], [("ucinewgame", 0)], [("position startpos moves e2e4", 0), ("go", 0), ("stop", 0)],
                    [("position startpos", 0), ("go", 0), ("position startpos moves d2d4 d7d5", 0), ("go", 0)]]
@@ -1373,7 +1376,7 @@ def c18(res, tier, seed, deep):
         else:
             # MANY new games between game 1 and the probe (255, 256, 257, 512 × ucinewgame): a reset that is a counter of
             # limited width instead of a fresh memory comes round again
-            combos += [(game1s[0], [("ucinewgame", 0)] * (k - 1)) for k in (255, 256, 257, 512)]
+            combos += [(g, [("ucinewgame", 0)] * (k - 1)) for k in (255, 256, 257, 512) for g in (game1s[0], game1s[4])]
         for g, m in combos:
             cmds = g + [("ucinewgame", 0)] + m + probe
             c1 = {}
